@@ -28,14 +28,16 @@ RULE = ("generated programs: a source tree (depth <= 4, bool/int/float/str scala
         "first; non-trivial = program with at least one injection or "
         "import that the specification accepts or rejects (not 'outside'); distinct = canonical JSON of the program")
 ASSUMPTIONS = [
-    "no functions, expressions or templates in the generated programs (C18); @case only as flat if/else-if/else "
+    "no functions or templates, and expressions only as `('{?node} * k')` definitions whose value the harness delivers "
+    "to model and specification as a literal (evaluation is C18's; C17 needs them for imports of expression-defined nodes); @case only as flat if/else-if/else "
     "chains closed by @end whose conditions are literals or bare references to boolean nodes and whose bodies are "
     "indented deeper (nesting, expression conditions and the closing rules are C15's; its check covers them); "
     "!condition lines are always-true comparisons, formats permissive, options contain every value the node takes (C16)",
     "hosts of an injection covered: typed definitions, modifications, $unit definitions, option lines, @case clauses; "
     "a reference as the value of !format / !tags / !description / $source delivers text without a unit and is not generated",
     "values as structured literals: the text <-> literal map (lexer, json) is C13's; numbers are decimals with <= 3 "
-    "digits after the point, compared with relative tolerance 1e-9; integer nodes are dimensionless and stay integral",
+    "digits after the point, compared with relative tolerance 1e-9; integer nodes are dimensionless, except dedicated "
+    "integer nodes with a unit that are re-stated only in a larger unit of the same dimension (values stay integral)",
     "host and source have the same datatype, or a float host takes an int source; slices only on definition lines "
     "(a slice on a modification line is always refused by the code); no empty strings, no 'none' values",
     "an imported node whose destination path already exists (declared or defined) is assigned to that node like a "
@@ -257,6 +259,8 @@ def ref_text(r):
 
 
 def value_text(val):
+    if "expr" in val:
+        return val["expr"]      # the text is an expression; model and specification get its value ("lit")
     if "lit" in val:
         return val_text(val["lit"])
     return "{%s}%s" % (ref_text(val["ref"]), slices_text(val["ref"].get("slices")))
@@ -493,6 +497,22 @@ def sources_snapshot(env, names):
     return out
 
 
+def feed(p, lines):
+    """hands the lines to the real front end: text through add_string, literal `$unit` lines at the root through the
+    API DIP.add_unit (which queues the same line); the order of the lines is kept"""
+    seg = []
+    for l in lines:
+        if l["k"] == "unit" and "value" in l and l["indent"] == 0:
+            if seg:
+                p.add_string(text_of(seg))
+                seg = []
+            p.add_unit(l["name"], l["value"], l.get("unit"))
+        else:
+            seg.append(l)
+    if seg or not lines:
+        p.add_string(text_of(seg))
+
+
 def run_impl(prog, file_tag=None, keep_files=False):
     """Runs the real front end.  Returns dict(status, env snapshot, base before/after, sources).
     `file_tag`: fixed file-name stem (histories rewrite the same files between parses)."""
@@ -516,7 +536,7 @@ def run_impl(prog, file_tag=None, keep_files=False):
                 _keep.append(p1)
                 for nm in names:
                     p1.add_source(nm, paths[nm])
-                p1.add_string(text_of(prog["base"]))
+                feed(p1, prog["base"])
                 try:
                     base_env = p1.parse()
                 except Exception as e:
@@ -531,8 +551,8 @@ def run_impl(prog, file_tag=None, keep_files=False):
                 for nm in names:
                     p2.add_source(nm, paths[nm])
             _keep.append(p2)
-            p2.add_string(text_of(prog["main"]))
             try:
+                feed(p2, prog["main"])
                 env = p2.parse()
                 out["env"] = env_snapshot(env)
                 out["sources"] = sources_snapshot(env, names)
@@ -545,8 +565,8 @@ def run_impl(prog, file_tag=None, keep_files=False):
                 # the same program once more on the same base: it must see the base as the first parse saw it
                 p3 = DIP(base_env, name=tag + "n")
                 _keep.append(p3)
-                p3.add_string(text_of(prog["main"]))
                 try:
+                    feed(p3, prog["main"])
                     second = {"status": "ok", "env": env_snapshot(p3.parse())}
                 except Exception as e:
                     second = {"status": "err"}
@@ -1130,6 +1150,55 @@ def gen_program(rng, malformed=False):
                     l["unit"] = "zzq"
                 main.append(l)
             break   # the rest of the text would not be reached
+        if rng.random() < 0.06:
+            # an INTEGER node (scalar or array) with a unit, re-stated in a larger unit of the same dimension (the
+            # converted values are integers again), then injected / sliced / imported into integer hosts
+            small, big = rng.choice([("cm", "m"), ("m", "km"), ("mm", "m"), ("ms", "s"), ("s", "min"), ("g", "kg"), ("mm", "cm")])
+            ishape = rng.choice([[], [rng.randint(2, 4)], [2, 2]])
+            gn = g.fresh("ng")
+            g.uncertain = True
+            iref = lambda sl: {"ref": {"source": None, "q": ["exact", [gn, "c"]], "slices": sl}}
+            main.append({"k": "group", "indent": 0, "name": gn})
+            main.append({"k": "def", "indent": 2, "name": "c", "path": [gn, "c"], "kw": "int", "dims": exact_dims(ishape, rng),
+                         "val": {"lit": gen_value(rng, "int", ishape)}, "unit": small})
+            main.append({"k": "mod", "indent": 0, "name": gn + ".c", "path": [gn, "c"],
+                         "val": {"lit": gen_value(rng, "int", ishape)}, "unit": big})
+            hn = g.fresh("ni")
+            main.append({"k": "def", "indent": 0, "name": hn, "path": [hn], "kw": "int", "dims": exact_dims(ishape, rng),
+                         "val": iref([]), "unit": rng.choice([None, None, small, big])})
+            if ishape:
+                hn2 = g.fresh("ni")
+                main.append({"k": "def", "indent": 0, "name": hn2, "path": [hn2], "kw": "int", "dims": exact_dims(ishape[1:], rng),
+                             "val": iref([["idx", rng.randrange(ishape[0])]]), "unit": None})
+                hn3 = g.fresh("ni")
+                main.append({"k": "def", "indent": 0, "name": hn3, "path": [hn3], "kw": "int",
+                             "dims": exact_dims([min(2, ishape[0])] + ishape[1:], rng),
+                             "val": iref([["rng", None, 2]]), "unit": rng.choice([None, big])})
+            bn = g.fresh("nb")
+            main.append({"k": "imp", "indent": 0, "prefix": bn, "dest": [bn], "source": None, "q": ["children", [gn]]})
+            continue
+        if rng.random() < 0.05:
+            # a node defined by an EXPRESSION over another node (its value is delivered to model and specification by
+            # the harness), the operand modified afterwards, then the node imported onto an existing node and to a
+            # fresh place: an imported node carries its value, it is not evaluated again in the importing scope
+            u = rng.choice(UNITS[:9])
+            fam = [f for f in FAMILIES if u in f][0]
+            x, k = rng.randint(1, 999), rng.randint(2, 9)
+            en, ew = g.fresh("ea"), g.fresh("ew")
+            main.append({"k": "def", "indent": 0, "name": en, "path": [en], "kw": "float", "dims": [],
+                         "val": {"lit": num(x, 1)}, "unit": u})
+            main.append({"k": "def", "indent": 0, "name": ew, "path": [ew], "kw": "float", "dims": [],
+                         "val": {"lit": num(x * k, 1), "expr": "('{?%s} * %d')" % (en, k)}, "unit": u})
+            main.append({"k": "mod", "indent": 0, "name": en, "path": [en], "val": {"lit": num(rng.randint(1000, 5000), 1)}, "unit": u})
+            ln = g.fresh("L")
+            main.append({"k": "group", "indent": 0, "name": ln})
+            main.append({"k": "def", "indent": 2, "name": ew, "path": [ln, ew], "kw": "float", "dims": [],
+                         "val": {"lit": num(1)}, "unit": rng.choice(fam)})
+            main.append({"k": "imp", "indent": 0, "prefix": ln, "dest": [ln], "source": None, "q": ["exact", [ew]]})
+            mn = g.fresh("M")
+            main.append({"k": "imp", "indent": 0, "prefix": mn, "dest": [mn], "source": None, "q": ["exact", [ew]]})
+            g.uncertain = True
+            continue
         if r < 0.05:
             # `$unit name = {ref}` with and without a unit of its own: the host of the injection is not a node
             nums = [p for p in paths if cat[p]["kw"] in ("int", "float") and not cat[p]["shape"]]
